@@ -317,12 +317,25 @@ def classify_events(lines):
     for i, ev in enumerate(evs[1:], 1):
         if ev["e"] == "Add":
             s = sp[ev["s"] - 1]
+            raw = bytes(ev["raw"])
+            if tokens(raw) != ev["toks"]:
+                raise tlc.ModelError("driver and checker cut the phone string %r differently: %r" % (raw, ev["toks"]))
+            padded = raw != " ".join(ev["toks"]).encode()
             ok, cls, one = d.classify(s, ev["toks"])
             pre = ("add:" if ok else "reject:") + cls
-            info.append({"kind": "add", "ok": ok, "cls": cls, "n_before": d.n})
+            info.append({"kind": "add", "ok": ok, "cls": cls, "n_before": d.n, "padded": padded})
             exp, _ = d.add(s, ev["toks"])
+            c = ev["d2p"]
             if (exp >= 0 and ev["ret"] != exp) or (exp < 0 and ev["ret"] >= 0):
-                note(i, pre + "-wrong-return", "returned %d, the model says %d" % (ev["ret"], exp))
+                note(i, pre + "-wrong-return" + (":padded-phone-string" if padded and ok else ""),
+                     "returned %d, the model says %d" % (ev["ret"], exp))
+            elif exp >= 0 and not ((c[0] == 0 and c[1] == 0) if len(ev["toks"]) >= 2 else c[2] == 0):
+                ph = evs[0]["phones"]
+                tri = "%s(%s,%s)" % tuple(ph[x] if 0 <= x < len(ph) else "?" for x in c[3:6])
+                note(i, pre + "-not-realised-by-its-pronunciation",
+                     "the context tables the search reads for the new word differ from the model definition's triphones of its "
+                     "pronunciation for %s left / %s right / %s single-phone contexts, first %s"
+                     % (c[0], c[1], c[2], tri))
             elif ev["n"] != d.n:
                 note(i, pre + "-changes-count", "dictionary size %d, the model says %d" % (ev["n"], d.n))
             else:
@@ -343,18 +356,32 @@ def classify_events(lines):
                 note(i, "scan:spelling-does-not-map-to-its-id", "n=%d selfmap=%d model n=%d" % (ev["n"], ev["selfmap"], d.n))
             elif ev["presum"] != h["presum"]:
                 note(i, "scan:initial-entries-changed", "digest of the entries loaded at start changed")
+            elif ev["d2pbad"] != 0:
+                note(i, "scan:entry-not-realised-by-its-pronunciation",
+                     "%d entries whose context tables differ from the model definition's triphones of their pronunciation" % ev["d2pbad"])
         elif ev["e"] == "Use":
             k = ev["kind"]
             info.append({"kind": k, "dec": ev["dec"]})
             ws = [sp[x - 1] for x in ev["words"]]
             absent = {x for x in ev["words"] if not d.has(sp[x - 1])}
+            tw = ev["twin"]
             if set(ev["absent"]) != absent:
                 note(i, "use:%s-word-presence" % k, "words absent %s, the model says %s" % (ev["absent"], sorted(absent)))
             elif not absent and (ev["called"] != 1 or ev["ret"] != 0):
                 note(i, "use:%s-present-words-not-loadable" % k, "returned %d" % ev["ret"])
             elif absent and k == "align" and ev["ret"] == 0:
                 note(i, "use:align-absent-word-accepted", "returned 0")
-            elif ev["called"] == 1 and ev["ret"] == 0 and ev["dec"] == 1:
+            elif tw and tw[0] == 1 and (tw[1] != d.n or tw[2] != d.n):
+                note(i, "use:%s-file-dictionary-differs-from-additions" % k,
+                     "a dictionary file holding the loaded file plus the added words gives %d entries, %d of the %d live "
+                     "entries are in it unchanged" % (tw[1], tw[2], d.n))
+            elif tw and tw[0] == 1 and tw[3] != tw[4]:
+                def show(r):
+                    return "ret %d hyp %r score %d seg %s" % (r[0], b" ".join(bytes(x) for x in r[1][2])[:60], r[1][1],
+                                                            [(bytes(x[0]).decode("latin-1")[:12], x[1], x[2], x[3]) for x in r[1][3]][:8])
+                note(i, "use:%s-result-differs-from-file-dictionary" % k,
+                     "words added at run time: %s; the same words read from the dictionary file: %s" % (show(tw[3]), show(tw[4])))
+            elif ev["called"] == 1 and ev["ret"] == 0 and ev["dec"] >= 1:
                 if ev["hf"] == 0:
                     if ev["expect"] == 1:
                         note(i, "use:%s-decode-no-hypothesis" % k, "no hypothesis for audio that says these words")
@@ -543,6 +570,39 @@ def probe_execs(rng, plan, phones):
         ex = Exec("probe-variant-%d" % i, "turtle", "-", [f, b"", b"go"], [])
         ex.cmds += [("check",), ("add", ex.sid(f if w is None else w), 0, ph), ("check",), ("scan",)]
         out.append(ex)
+    out += layout_probes(rng, plan, phones, taken)
+    return out
+
+
+def layout_probes(rng, plan, phones, taken):
+    """Every layout of LAYOUTS once, on words of 1..6 phones, with and without an active search; a blank-only string
+    of every kind is an empty pronunciation.  The sentence of the second execution is decoded on the live decoder and
+    on a twin whose dictionary file holds the same words."""
+    out = []
+    for u in (0, 1):
+        ws = [fresh_word(rng, plan, taken) for _ in LAYOUTS]
+        e = fresh_word(rng, plan, taken)
+        ex = Exec("probe-phone-string-layouts-u%d" % u, "turtle", "-", ws + [e, b"go", b"ten", b"meters", b"forward"], [])
+        S = ex.sid
+        c = ex.cmds
+        c.append(("check",))
+        if u:
+            c.append(("jsgf", 0, 0, [S(b"go"), S(b"ten")]))
+        order = list(range(len(LAYOUTS)))
+        rng.shuffle(order)
+        for k, li in enumerate(order):
+            n = 1 + (k + u) % 6
+            toks = rand_pron(rng, phones, n, True) if k != 3 else ["F", "AO", "R", "W", "ER", "D"]
+            c.append(("add", S(ws[li]), u, lay_out(toks, LAYOUTS[li])))
+            if k == 3:
+                fw = ws[li]
+        for lay in rng.sample(LAYOUTS[1:], 4):
+            c.append(("add", S(e), u, lay_out([], lay) or b" "))          # blanks only: no pronunciation
+        c.append(("check",))
+        c.append(("align", 0, 0, [S(w) for w in rng.sample(ws, 4)]))
+        c.append(("jsgf", 2, 1, [S(b"go"), S(fw), S(b"ten"), S(b"meters")]))
+        c.append(("scan",))
+        out.append(ex)
     return out
 
 
@@ -646,7 +706,7 @@ def tour_execs(rng, plan_by_case, phones, cfgs, broken, max_len, variants):
                     a = edges[e][1]
                     s = mp[tuple(a["s"])]
                     toks = [ph[x] for x in a["p"]]
-                    raw = join_phones(rng, toks, fancy=rng.random() < 0.1 and len(toks) > 0)
+                    raw = join_phones(rng, toks, fancy=rng.random() < 0.3)
                     if plan.excluded(s, toks, broken):
                         continue
                     plan.add(s, toks)
@@ -713,7 +773,7 @@ def random_exec(rng, hi, plans, phones, broken, nops, dictname="turtle"):
             if plan.excluded(s, toks, broken):
                 continue
             plan.add(s, toks)
-            ex.cmds.append(("add", ex.sid(s), int(rng.random() < 0.4), join_phones(rng, toks, fancy=rng.random() < 0.25)))
+            ex.cmds.append(("add", ex.sid(s), int(rng.random() < 0.4), join_phones(rng, toks, fancy=rng.random() < 0.4)))
         elif r < 0.82:
             ex.cmds.append(("check",))
         elif r < 0.86:
@@ -758,7 +818,7 @@ def growth_exec(rng, gi, plans, phones, broken, dictname, dcase, n0, max0):
             return
         w = [S(s)] + ([S(base_str(s))] if is_alt(s) else []) + fixed + [S(x) for x in rng.sample(done, min(len(done), 3))]
         c.append(("watch", list(dict.fromkeys(w))))
-        c.append(("add", S(s), u, join_phones(rng, toks)))
+        c.append(("add", S(s), u, join_phones(rng, toks, fancy=rng.random() < 0.15)))
         if plan.add(s, toks)[0] >= 0:
             done.append(s)
 
@@ -883,12 +943,12 @@ def use_exec(rng, ui, plans, phones, broken):
         if plan.excluded(w, pc, broken):
             continue
         plan.add(w, pc)
-        ex.cmds.append(("add", S(w), int(rng.random() < 0.5 or j == len(adds) - 1), join_phones(rng, pc)))
+        ex.cmds.append(("add", S(w), int(rng.random() < 0.5 or j == len(adds) - 1), join_phones(rng, pc, fancy=rng.random() < 0.5)))
     ok = all(plan.has(w) for w in sent_j + sent_a)
     order = [("jsgf", sent_j), ("align", sent_a)]
     rng.shuffle(order)
     for kind, sent in order:
-        ex.cmds.append((kind, 1, 1 if ok else 0, [S(w) for w in sent]))
+        ex.cmds.append((kind, 2, 1 if ok else 0, [S(w) for w in sent]))       # (2: also on a twin decoder)
     # new words the audio does not contain: a one-phone word, a long one; loaded and decoded (no hypothesis is expected,
     # but building and running the search reads the context tables filled for them)
     w1, w2 = fresh_word(rng, plan, taken), fresh_word(rng, plan, taken)
@@ -898,13 +958,121 @@ def use_exec(rng, ui, plans, phones, broken):
     for w, pr in ((w1, p1), (w2, p2)):
         plan.add(w, pr)
         ex.cmds.append(("add", S(w), int(rng.random() < 0.5), join_phones(rng, pr)))
-    ex.cmds.append((rng.choice(["jsgf", "align"]), 1, 0, [S(w1), S(b"go"), S(w2)] if rng.random() < 0.5 else [S(w2), S(w1)]))
+    ex.cmds.append((rng.choice(["jsgf", "align"]), rng.choice([1, 2]), 0, [S(w1), S(b"go"), S(w2)] if rng.random() < 0.5 else [S(w2), S(w1)]))
+    ex.cmds += [("check",), ("scan",)]
+    return ex
+
+
+# ---- a dictionary is a value: words added at run time against the same words read from the dictionary file ---------
+_ENDS = {}
+
+
+def known_pairs(dictname):
+    """(final pairs (last, second-last), initial pairs (first, second), single phones) of the words of a bundled dictionary"""
+    if dictname not in _ENDS:
+        prons = [pr for _, pr in load_plan_dict(dictname)]
+        _ENDS[dictname] = ({(pr[-1], pr[-2]) for pr in prons if len(pr) >= 2}, {(pr[0], pr[1]) for pr in prons if len(pr) >= 2},
+                           {pr[0] for pr in prons if len(pr) == 1})
+    return _ENDS[dictname]
+
+
+def twin_exec(rng, ti, plans, phones, broken):
+    """"go forward ten meters" with some words replaced by NEW words whose last two phones end no word known so far
+    (so that the word-final context table is filled on demand): last phone doubled / replaced / one phone appended /
+    last phone dropped, as a new word, as a new alternate of the word of the file, or as alternate (2) of a new word
+    that itself is pronounced differently; then, for a changed word of four phones or more, a three-phone word with
+    the same ending (it finds the table already filled).  Each sentence is decoded on the live decoder and on a twin
+    whose dictionary FILE holds the same words."""
+    dcase = rng.choice(["-", "-", "0", "1"])
+    plan = plans[("turtle", dcase == "1")].copy()
+    taken = set()
+    real = [p for p in phones if not p.startswith("+") and p != "SIL"]
+    ends = set(known_pairs("turtle")[0])
+    avoid1 = "one-letter-phones" in broken
+    forced = rng.randrange(len(GOFWD))
+    adds, sent_base, sent_any, sent_tail, have_tail = [], [], [], [], False
+    for wi, (name, pr) in enumerate(GOFWD):
+        w0 = name.encode()
+        mode = rng.choice(["keep", "double", "replace", "append", "drop"])
+        if mode == "keep" and wi == forced:
+            mode = "double"
+        p = list(pr)
+        if mode == "drop" and (len(p) < 3 or (p[-2], p[-3]) in ends):
+            mode = "append"
+        if mode == "keep":
+            for snt in (sent_base, sent_any, sent_tail):
+                snt.append(w0)
+            continue
+        if mode == "double":
+            p.append(p[-1])
+        elif mode == "drop":
+            p.pop()
+        else:
+            left = p[-1] if mode == "append" else p[-2]
+            cand = [x for x in real if (x, left) not in ends and x != pr[-1]]
+            x = rng.choice(cand or real)
+            if mode == "append":
+                p.append(x)
+            else:
+                p[-1] = x
+        if avoid1 and all(len(x) == 1 for x in p):
+            p.append("AH")
+        ends.add((p[-1], p[-2]))
+        how = rng.choice(["new", "new", "alt-of-file-word", "alt-of-new-word"])
+        if how == "new":
+            w = fresh_word(rng, plan, taken)
+            adds.append((w, p))
+            sent_base.append(w)
+            sent_any.append(w)
+        elif how == "alt-of-file-word":
+            k = 2
+            while plan.has(w0 + b"(%d)" % k):
+                k += 1
+            w = w0 + b"(%d)" % k
+            adds.append((w, p))
+            sent_base.append(w0)
+            sent_any.append(rng.choice([w0, w]))
+        else:
+            b = fresh_word(rng, plan, taken)
+            w = b + b"(2)"
+            adds += [(b, rand_pron(rng, phones, rng.randint(2, 5), True)), (w, p)]
+            sent_base.append(b)
+            sent_any.append(rng.choice([b, w]))
+        if len(p) >= 4 and rng.random() < 0.7:
+            t = fresh_word(rng, plan, taken, 2, 4)
+            adds.append((t, p[-3:]))               # after the long word: the table of its ending exists by then
+            sent_tail.append(t)
+            have_tail = True
+        else:
+            sent_tail.append(sent_base[-1])
+    pool = list(dict.fromkeys([b"go", b"forward", b"ten", b"meters"] + [w for w, _ in adds] + sent_base + sent_any))
+    ex = Exec("twin-c%s#%d" % (dcase, ti), "turtle", dcase, pool, [])
+    S = ex.sid
+    ex.cmds.append(("check",))
+    if rng.random() < 0.5:
+        ex.cmds.append(("jsgf", 1, 1, [S(b"go"), S(b"forward"), S(b"ten"), S(b"meters")]))
+    for j, (w, pr) in enumerate(adds):
+        if plan.excluded(w, pr, broken):
+            continue
+        plan.add(w, pr)
+        ex.cmds.append(("add", S(w), int(rng.random() < 0.5), join_phones(rng, pr, fancy=rng.random() < 0.4)))
+    uses = [("jsgf", sent_base), ("align", sent_any)]
+    if have_tail:
+        uses.append((rng.choice(["jsgf", "align"]), sent_tail))
+    rng.shuffle(uses)
+    for kind, sent in uses:
+        if all(plan.has(w) for w in sent):
+            ex.cmds.append((kind, 2, 0, [S(w) for w in sent]))
     ex.cmds += [("check",), ("scan",)]
     return ex
 
 
 # ---------------------------------------------------------------------------------------------------------
 _REPLAYS = {}
+# clause names printed by DictTrace!Clause -> the part of the violation key that names them
+CLAUSE_KEYS = {"realised": "not-realised-by-its-pronunciation", "all-realised": "entry-not-realised-by-its-pronunciation",
+               "twin-same-dictionary": "file-dictionary-differs-from-additions",
+               "twin-same-result": "result-differs-from-file-dictionary"}
 
 
 def write_replay(ctx, name, ex):
@@ -924,7 +1092,9 @@ class Driver:
     def __init__(self, ctx, drv):
         self.ctx, self.drv, self.rep = ctx, drv, ctx.report
         self.hangs = []
-        self.broken = set()          # input classes that failed (left out of later generated executions)
+        BROKEN.clear()
+        self.broken = BROKEN         # input classes that failed (left out of later generated executions)
+        self.confirmed = set()       # violation keys already reproduced by a second run
         self.accepted_chunks = []
         self.stats = collections.Counter()
         self.nontrivial_kinds = collections.Counter()
@@ -990,12 +1160,6 @@ class Driver:
                 failed_ids.add(f.exec_id)
                 r = by_id[f.exec_id]
                 ev_index = f.local_line - 1           # 0 = Header
-                r2 = run_one(self.drv, r.ex, self.ctx.work, force=True)
-                keep = self.unexamined
-                a2, f2 = self.validate([r2], tag + ".confirm", max_fail=1)
-                self.unexamined = keep
-                if not f2 or f2[0].local_line != f.local_line:
-                    raise tlc.ModelError("rejection of %s at event %d did not reproduce" % (f.exec_id, ev_index))
                 if ev_index == 0:
                     raise tlc.ModelError("Header of %s rejected: %s" % (f.exec_id, f.event[:300]))
                 info, first = classify_events(r.lines)
@@ -1003,12 +1167,30 @@ class Driver:
                 ci = em[ev_index - 1]
                 if first and first[0] == ev_index:
                     key, text = first[1], first[2]
+                    if f.clause and CLAUSE_KEYS[f.clause] not in key:
+                        raise tlc.ModelError("TLC names clause %s for event %d of %s, the diagnosis says %s"
+                                             % (f.clause, ev_index, f.exec_id, key))
+                elif f.clause:
+                    key, text = "clause:" + CLAUSE_KEYS[f.clause], "clause %s of DictTrace is false" % f.clause
                 else:
                     key, text = "mismatch:" + r.ex.cmds[ci][0], "event not explained by the dictionary model"
+                if key not in self.confirmed:
+                    # (one confirmation per key: a change that breaks every execution the same way would otherwise cost
+                    # a second run and a TLC start for each of them)
+                    r2 = run_one(self.drv, r.ex, self.ctx.work, force=True)
+                    keep = self.unexamined
+                    a2, f2 = self.validate([r2], tag + ".confirm", max_fail=1)
+                    self.unexamined = keep
+                    if not f2 or f2[0].local_line != f.local_line:
+                        raise tlc.ModelError("rejection of %s at event %d did not reproduce" % (f.exec_id, ev_index))
+                    self.confirmed.add(key)
                 what = "after %s: %s (event %d of %s)" % (self.describe(r.ex, r.ex.cmds[ci]), text, ev_index, f.exec_id)
                 self.rep.violation(key, what, write_replay(self.ctx, key + "__" + r.ex.id, r.ex))
                 if learn and info[ev_index] and info[ev_index].get("cls"):
-                    self.broken.add(info[ev_index]["cls"])
+                    if key.endswith(":padded-phone-string"):
+                        self.broken.add("padded-phone-string")      # later phone strings are joined by single blanks
+                    elif "not-realised" not in key:                 # (a silent failure: there is no input class to leave out)
+                        self.broken.add(info[ev_index]["cls"])
                 if not key.startswith("load:"):          # (nothing to learn from a dictionary that starts out wrong)
                     nxt.append(r.ex.without(ci, "~"))
             # crashes
@@ -1062,14 +1244,43 @@ class Driver:
         evs = [json.loads(l) for l in r.lines]
         h = evs[0]
         rec = {"events": len(evs) - 1, "kinds": set()}
-        maxchain, grew, dec = 0, False, 0
+        maxchain, grew, dec, twins, lazy = 0, False, 0, 0, 0
+        kp = known_pairs(h["dict"])
+        ends, begs, singles = set(kp[0]), set(kp[1]), set(kp[2])
         for ev in evs[1:]:
             if ev["e"] == "Add":
                 self.stats["add_accepted" if ev["ret"] >= 0 else "add_rejected"] += 1
                 if ev["ret"] >= h["max0"]:
                     grew = True
-            if ev["e"] == "Use" and ev["dec"] == 1 and ev["hf"] == 1:
+                t = ev["toks"]
+                if bytes(ev["raw"]) != " ".join(t).encode():
+                    self.stats["add_padded_phone_string_" + ("accepted" if ev["ret"] >= 0 else "rejected")] += 1
+                    if ev["ret"] >= 0 and len(ev["raw"]) >= 2 and ev["raw"][-1] in WS and ev["raw"][-2] in WS:
+                        self.stats["add_accepted_with_2+_trailing_blanks"] += 1
+                if ev["ret"] >= 0:
+                    # which context tables this addition had to fill on demand (no earlier word has the pair)
+                    if len(t) >= 2:
+                        if (t[-1], t[-2]) not in ends:
+                            self.stats["add_fills_final_table"] += 1
+                            if len(t) != 3:
+                                self.stats["add_fills_final_table_second_differs_from_second_last"] += 1
+                                lazy += 1
+                        elif (t[-1], t[-2]) not in kp[0]:
+                            self.stats["add_reuses_final_table_filled_on_demand"] += 1
+                        if (t[0], t[1]) not in begs:
+                            self.stats["add_fills_initial_table"] += 1
+                        ends.add((t[-1], t[-2]))
+                        begs.add((t[0], t[1]))
+                    elif t[0] not in singles:
+                        self.stats["add_fills_single_phone_table"] += 1
+                        singles.add(t[0])
+            if ev["e"] == "Use" and ev["dec"] >= 1 and ev["hf"] == 1:
                 dec += 1
+            if ev["e"] == "Use" and ev["twin"] and ev["twin"][0] == 1:
+                self.stats["twin_decodes"] += 1
+                if ev["hf"] == 1:
+                    self.stats["twin_decodes_with_hypothesis"] += 1
+                    twins += 1
             for o in ev.get("obs", []):
                 if o[1] >= h["n0"] or (o[6] >= 0 and any(x >= h["n0"] for x in o[7])):
                     maxchain = max(maxchain, len(o[7]))
@@ -1079,6 +1290,10 @@ class Driver:
             rec["kinds"].add("grown")
         if dec:
             rec["kinds"].add("decoded")
+        if twins:
+            rec["kinds"].add("twin")
+        if lazy:
+            rec["kinds"].add("context-table-filled")
         if not r.crashed:
             self._acc[r.ex.id] = rec
             self.accepted_chunks.append((r.ex.id, r.lines))
@@ -1100,16 +1315,27 @@ class Driver:
 
 def run_tlc_models(rep, cfgs, workers_each, par):
     """exhaustive runs, several at a time"""
+    def module(c):
+        return "MC_abs.tla" if c[1] == "abs" else "MC_parse.tla" if "parse" in c[0] else "MC_dict.tla"
+
     def one(c):
-        return c, tlc.run("MC_abs.tla" if c[1] == "abs" else "MC_dict.tla", c[0], SPEC, workers=workers_each, timeout=2400,
-                          coverage=c[1] in ("ref", "abs"), heap="6g")
+        return c, tlc.run(module(c), c[0], SPEC, workers=workers_each, timeout=2400,
+                          coverage=c[1] in ("ref", "abs", "parse"), heap="6g")
     with concurrent.futures.ThreadPoolExecutor(max_workers=par) as pool:
         res = list(pool.map(one, cfgs))
-    for (cfg, kind, expect), r in res:
+    for c, r in res:
+        cfg, kind, expect = c
         if kind == "abs":
             if r.violated or r.coverage.get("AAdd", (0, 0))[0] == 0:
                 raise tlc.ModelError("DictAbs on its own: %s violated / vacuous in %s\n%s" % (r.violated, cfg, r.out[-2000:]))
             rep.add_tlc("MC_abs.tla/" + cfg, r)
+        elif kind == "parse":
+            if r.violated:
+                raise tlc.ModelError("PhoneParse (the tokeniser loop) does not refine DictAbs!PhoneTokens in %s: %s\n%s"
+                                     % (cfg, r.violated, r.out[-2500:]))
+            if r.coverage.get("Iterate", (0, 0))[0] == 0:
+                raise tlc.ModelError("vacuous model run: the tokeniser loop never ran in %s" % cfg)
+            rep.add_tlc("MC_parse.tla/" + cfg, r)
         elif kind == "ref":
             if r.violated:
                 raise tlc.ModelError("DictImpl (intended design) does not refine DictAbs in %s: %s\n%s" % (cfg, r.violated, r.out[-2500:]))
@@ -1118,12 +1344,18 @@ def run_tlc_models(rep, cfgs, workers_each, par):
                 raise tlc.ModelError("vacuous model run: an action was never taken in %s (%s)" % (cfg, r.coverage))
             rep.add_tlc("MC_dict.tla/" + cfg, r)
         else:
-            # the code as written, behind its switch, must break exactly what the finding says it breaks
+            # "dev": the code as written, behind its switch, must break exactly what the finding says it breaks;
+            # "neg": a negative control - a mechanism that is NOT the code's - must break the invariant that guards it
             hit = re.search(r"Error: (Invariant|Action property) (.*?) is violated", r.out)
             if not hit or expect not in hit.group(0):
-                raise tlc.ModelError("deviation config %s should violate %s but TLC says: %s" % (cfg, expect, hit and hit.group(0)))
-            rep.add_tlc("MC_dict.tla/" + cfg + " (as written: violates %s, expected)" % expect, r, mode="deviation")
-            rep.notes.setdefault("as_written_model", {})[cfg] = "violates %s after %d states" % (expect, r.generated)
+                raise tlc.ModelError("%s config %s should violate %s but TLC says: %s"
+                                     % ("deviation" if kind == "dev" else "negative-control", cfg, expect, hit and hit.group(0)))
+            if kind == "dev":
+                rep.add_tlc("MC_dict.tla/" + cfg + " (as written: violates %s, expected)" % expect, r, mode="deviation")
+                rep.notes.setdefault("as_written_model", {})[cfg] = "violates %s after %d states" % (expect, r.generated)
+            else:
+                rep.add_tlc(module(c) + "/" + cfg + " (negative control: violates %s, expected)" % expect, r, mode="negative-control")
+                rep.notes.setdefault("negative_controls", {})[cfg] = "violates %s after %d states" % (expect, r.generated)
 
 
 def run(ctx):
@@ -1142,10 +1374,16 @@ def run(ctx):
         t0[0] = time.time()
     rep.assumptions += [
         "spellings used have at most one trailing parenthesised suffix (an alternate of an alternate is outside the property)",
-        "phone strings are separated by blank, tab, CR or LF; the case mode is read from dict_t.nocase of the real dictionary "
+        "phone strings are separated by blank, tab, CR or LF (vertical tab and form feed are not used); the case mode is read from dict_t.nocase of the real dictionary "
         "(dictcase=yes gives a case-INsensitive dictionary although the option's help text says the opposite)",
         "a JSGF grammar naming an absent word is not loaded (its failure path belongs to C09); the alignment call is always made",
         "the driver logs public API results and public struct fields only; the FNV digest of the initially loaded entries is computed by the driver",
+        "the driver counts, per added word and per scan, the neighbouring phones for which decoder_t.d2p (ldiph_lc, rssid through cimap, "
+        "lrdiph_rc) differs from bin_mdef_pid2ssid(bin_mdef_phone_id_nearest(...)) - the formula dict2pid_build() uses for the words of "
+        "the file; TLC requires the counts to be zero.  No generated pronunciation has SIL as second or second-last phone (there a "
+        "single-phone fill of the same table is legitimate)",
+        "the twin decoder gets the same options, turtle.dic plus one line per added word in id order; results are compared as "
+        "(return value, hypothesis, score, every segment with frames and scores); only for spellings a dictionary line can hold",
     ]
 
     if ctx.replay:
@@ -1161,7 +1399,10 @@ def run(ctx):
     dev = [("MC_dev_relink.cfg", "dev", "ChainExact"), ("MC_dev_relink_use.cfg", "dev", "NoCrash"),
            ("MC_dev_emptyword.cfg", "dev", "NoCrash"), ("MC_dev_emptypron.cfg", "dev", "NoCrash"),
            ("MC_dev_pronbuf.cfg", "dev", "NoCrash"), ("MC_dev_all.cfg", "dev", "Action property")]
-    small = dev + [("MC_abs_case.cfg", "abs", None), ("MC_abs_nocase.cfg", "abs", None)]
+    small = dev + [("MC_abs_case.cfg", "abs", None), ("MC_abs_nocase.cfg", "abs", None),
+                   ("MC_parse.cfg", "parse", None), ("MC_neg_parse.cfg", "neg", "ParseAccepts"),
+                   ("MC_neg_rctx.cfg", "neg", "D2pComplete")]
+    ref.append("MC_ref_q_d2p.cfg" if quick else "MC_ref_t_d2p.cfg")
     if quick:
         run_tlc_models(rep, [(c, "ref", None) for c in ref] + small, 3, 12)
     else:
@@ -1179,27 +1420,45 @@ def run(ctx):
     rep.notes["input_classes_failing_in_probes"] = sorted(D.broken)
     lap("probes")
 
-    # non-vacuity of the trace specification: one corrupted field of an accepted trace must be rejected
-    corrupted = None
-    for eid, lines in D.accepted_chunks:
-        bad = list(lines)
-        for i, l in enumerate(bad):
-            ev = json.loads(l)
-            mine = [x for x in ev.get("obs", []) if ev["e"] == "Add" and ev["ret"] >= 0 and x[1] == ev["ret"] and x[3]]
-            if mine:
-                mine[0][3][0] = "AA" if mine[0][3][0] != "AA" else "AE"      # what decoder_lookup_word said
+    # non-vacuity of the trace specification: one corrupted field of an accepted trace must be rejected -
+    # what decoder_lookup_word said; the context-table comparison of an accepted word; the score of the twin decoder
+    def falsify(what):
+        for eid, lines in D.accepted_chunks:
+            bad = list(lines)
+            for i, l in enumerate(bad):
+                ev = json.loads(l)
+                if what == "lookup":
+                    mine = [x for x in ev.get("obs", []) if ev["e"] == "Add" and ev["ret"] >= 0 and x[1] == ev["ret"] and x[3]]
+                    if not mine:
+                        continue
+                    mine[0][3][0] = "AA" if mine[0][3][0] != "AA" else "AE"
+                elif what == "context-tables":
+                    if not (ev["e"] == "Add" and ev["ret"] >= 0 and len(ev["toks"]) >= 2):
+                        continue
+                    ev["d2p"][1] = 1
+                else:
+                    if not (ev["e"] == "Use" and ev["twin"] and ev["twin"][0] == 1 and ev["twin"][4][1][0] == 1):
+                        continue
+                    ev["twin"][4][1][1] += 1
                 bad[i] = json.dumps(ev, separators=(",", ":"))
-                corrupted = bad
-                break
-        if corrupted:
-            break
-    if corrupted:
-        a, f, _ = tracecheck.validate(SPEC, "DictTrace.tla", "DictTrace.cfg", [("corrupt", corrupted)], ctx.work)
-        if not f:
-            raise tlc.ModelError("DictTrace accepted a trace with a falsified lookup result")
-        rep.notes["corrupted_trace_rejected_at_event"] = f[0].local_line - 1
-    elif not rep.violations:
-        raise tlc.ModelError("no accepted probe execution with an accepted addition: nothing was exercised")
+                return i, bad
+        return None, None
+
+    def reject(what):
+        i, bad = falsify(what)
+        if bad is None:
+            return what, None
+        a, f, _ = tracecheck.validate(SPEC, "DictTrace.tla", "DictTrace.cfg", [("corrupt-" + what, bad)], ctx.work)
+        if not f or f[0].local_line - 1 != i:
+            raise tlc.ModelError("DictTrace accepted a trace with a falsified %s (event %d)" % (what, i))
+        return what, i
+    with concurrent.futures.ThreadPoolExecutor(max_workers=3) as tp:
+        for what, i in tp.map(reject, ["lookup", "context-tables", "twin-score"]):
+            if i is not None:
+                rep.notes.setdefault("corrupted_trace_rejected_at_event", {})[what] = i
+            elif not rep.violations:
+                raise tlc.ModelError("no accepted probe execution in which a %s could be falsified: nothing was exercised" % what)
+    lap("corrupted_traces")
 
     # 3. tours
     tcfg = [("case", "MC_tour_q_case.cfg", "0", False), ("nocase", "MC_tour_q_nocase.cfg", "1", False),
@@ -1219,6 +1478,8 @@ def run(ctx):
         execs.append(random_exec(rng, hi, plans, phones, D.broken, rng.choice([40, 80, 160])))
     for ui in range(16 if quick else 150):
         execs.append(use_exec(rng, ui, plans, phones, D.broken))
+    for ti in range(16 if quick else 150):
+        execs.append(twin_exec(rng, ti, plans, phones, D.broken))
     execs.append(growth_exec(rng, 0, plans, phones, D.broken, "turtle", "-", *initial_size(drv, ctx.work, "turtle", "-")))
     if not quick:
         execs.append(growth_exec(rng, 1, plans, phones, D.broken, "turtle", "1", *initial_size(drv, ctx.work, "turtle", "1")))
@@ -1236,6 +1497,11 @@ def run(ctx):
         D.accepted_chunks = D.accepted_chunks[:40]
     D.finish()
     lap("main_execute_validate")
+    if not rep.violations:
+        for k in ("add_fills_final_table_second_differs_from_second_last", "add_fills_initial_table", "add_fills_single_phone_table",
+                  "add_reuses_final_table_filled_on_demand", "add_accepted_with_2+_trailing_blanks", "twin_decodes_with_hypothesis"):
+            if D.stats[k] == 0:
+                raise tlc.ModelError("vacuous run: no accepted execution counts for %s" % k)
 
     rep.notes["calls"] = dict(D.stats)
     rep.notes["nontrivial_kinds"] = dict(D.nontrivial_kinds)
@@ -1252,4 +1518,6 @@ def run(ctx):
                 "addition) edge, real spellings/phones) + seeded random histories + runs growing the table past its preallocation + "
                 "runs that use the new words (JSGF, alignment text, decode of goforward.raw); each on a real decoder in its own "
                 "process, validated event by event by TLC; non-trivial = distinct accepted execution in which an added word "
-                "ended in an alternate chain of length >= 2, or the table was reallocated, or a decode with new words gave a hypothesis")
+                "ended in an alternate chain of length >= 2, or the table was reallocated, or a decode with new words gave a hypothesis, "
+                "or a word-final context table was filled on demand for a word whose second phone is not its second-last, or a twin "
+                "decoder (same words in the dictionary file) decoded the same sentence with a hypothesis")
